@@ -83,9 +83,9 @@ func main() {
 		os.Exit(2)
 	}
 
-	timeout := 10
+	timeout := 25
 	if *tier == "thorough" {
-		timeout = 60
+		timeout = 90
 	}
 	if *timeoutFlag > 0 {
 		timeout = *timeoutFlag
